@@ -316,7 +316,7 @@ func (in *Interp) ite(c Node, a, b Value) Value {
 		return b
 	}
 	// decided on every path that is executing: the other alternative belongs to dead paths only
-	if in.live != True && in.live != False {
+	if !in.rawIte && in.live != True && in.live != False {
 		if in.D.M.And(in.live, c) == False {
 			return b
 		}
